@@ -40,6 +40,28 @@ grain     (GrainGrowthModel standalone, solved with the real solver; RK4 or Eule
                           zero at every evaluation, distribution and mean size unchanged (1e-12 relative, the
                           step re-normalises), clock advanced by the requested time
 
+grain_reset  (histories with reset(): distribution loaded from data - LoadDistribution - or from a function, then
+           solve -> (solve) -> reset() -> same solve calls -> reset() -> same solve calls; driven standalone through
+           solve() with the monitoring iterator, or through the public coupling entry point updateCoupledModel by a
+           duck-typed host without precipitates (scripted host steps, drag 0); the real-host variant is part of the
+           coupled cases: host.reset() + grain.reset() and the first solve call again)
+  gg_volume               is also evaluated on the state right after reset() (third moment 1: volume conserved over any
+                          number of solve calls, with resets in between)
+  (observation, NOT asserted) right after reset() the distribution, class bounds, mean of the distribution, clock and
+                          history length equal the loaded, normalised state (counters reset_state_compared_* /
+                          reset_state_differs_*): holds bitwise on the unchanged tree, but what reset() restores is not part
+                          of C18's statement
+  (observation, NOT asserted) does the run after reset() retrace the first run / do two runs after reset() coincide:
+                          residuals retrace_*_rel_<pair> and counters reset_run_does_not_retrace_first_run,
+                          runs_after_reset_differ_from_each_other, reset_does_not_restore_dissolution_index. The statement
+                          does not claim retracing: reset() leaves dissolutionIndex = 0 and avgR[0] = 0 (the Load*
+                          functions derive both), so the first step after reset() is shorter and the trajectories differ
+                          by the discretisation error (mean ~1e-4); outside C18 (documented in
+                          proposed_fixes/C18-reset-not-restoring-derived-state.*)
+  gg_volume / gg_mean_nondecreasing / coupled_clock are evaluated after every grain step / host step of all three runs,
+  the mean-size chain of a run starts at the mean size of the distribution it starts from (not at avgR[0], which
+  reset() leaves at 0 - recorded as reset_leaves_avgR0_different_from_loaded, not asserted).
+
 coupled   (PrecipitateModel, Al-Zr binary of kawin/tests/test_precipitation.py, <= 200 host steps, 1-3 solve
            calls; StrengthModel and/or GrainGrowthModel registered first, the observer last)
   coupled_strength_len    after every host step rss, ls and solidStrength have pData.n + 1 rows and pData.n
@@ -87,7 +109,8 @@ RULE = ('formula case = block of random StrengthModel parameter sets (G, b, nu, 
         'Taylor factor, 4 exponents, subset of 5 cutting mechanisms each global/phase specific/overriding) x (r, Ls) arrays with zeros, '
         'sub-core and sub-half-core radii; non-trivial when >= 10 sets have >= 2 active mechanisms and zero and sub-core radii were evaluated. '
         'grain case = one standalone GrainGrowthModel run (distribution kind, grid, mobility, solver) free -> moderate drag -> supercritical drag; '
-        'non-trivial when the free phase has >= 30 steps. coupled case = Al-Zr PrecipitateModel with StrengthModel and/or GrainGrowthModel, '
+        'non-trivial when the free phase has >= 30 steps. grain_reset case = load (data / function) -> solve calls -> reset() -> same calls -> reset() -> same calls, '
+        'standalone or driven by a stub host; non-trivial when the first run has >= 30 steps. coupled case = Al-Zr PrecipitateModel with StrengthModel and/or GrainGrowthModel, '
         '1-3 solve calls, <= 200 steps; non-trivial when >= 30 host steps were observed. distinct by case description (kind, block/run, seed)')
 REQUIRED_MONITORS = ['contrib_nonneg_finite', 'strength_nonneg_finite', 'zero_without_precipitates', 'taylor_min_rule',
                      'total_ge_parts', 'total_monotone', 'mixed_reduces', 'stub_history_len',
@@ -99,9 +122,9 @@ REACH = [_S + 'getStrengthContributions', _S + 'combineStrengthContributions', _
          _S + 'rssterm', _S + 'Lsterm', _S + 'updateCoupledModel', _S + 'ssStrength', _S + 'orowan',
          _S + 'coherencyStrong', _S + 'coherencyStrongEdge', _S + 'coherencyStrongScrew', _S + 'Jcomplex', _S + 'Tcomplex',
          _G + 'grainGrowth', _G + 'constrainedGrowth', _G + 'Normalize', _G + 'postProcess', _G + 'updateCoupledModel',
-         _G + 'computeZenerRadius', 'GenericModel.py:GenericModel.updateCoupledModels',
+         _G + 'computeZenerRadius', _G + 'reset', _G + 'LoadDistribution', _G + 'LoadDistributionFunction', 'GenericModel.py:GenericModel.updateCoupledModels',
          'precipitation/KWNBase.py:PrecipitateBase.postProcess']
-MIN_NONTRIVIAL = {'quick': 60, 'thorough': 1800}
+MIN_NONTRIVIAL = {'quick': 72, 'thorough': 2200}
 CASE_TIMEOUT = 600
 MAX_INCONCLUSIVE_FRACTION = 0.0
 ASSUMPTIONS = ['"for all" is sampled: random parameter sets, distributions and short coupled runs',
@@ -113,6 +136,7 @@ ASSUMPTIONS = ['"for all" is sampled: random parameter sets, distributions and s
 N_FORMULA = {'quick': 50, 'thorough': 1500}
 N_GRAIN = {'quick': 20, 'thorough': 600}
 N_COUPLED = {'quick': 4, 'thorough': 120}
+N_RESET = {'quick': 16, 'thorough': 480}
 SETS_PER_BLOCK = 100
 
 TOL_ARITH = 1e-12        # oracle repeats the arithmetic
@@ -145,6 +169,8 @@ def plan(tier, seed):
         cases.append({'kind': 'grain', 'run': i, 'weight': 5.0})
     for i in range(N_FORMULA[tier]):
         cases.append({'kind': 'formula', 'block': i, 'nsets': SETS_PER_BLOCK, 'weight': 1.0})
+    for i in range(N_RESET[tier]):      # appended last so that the indices (and random streams) of the older cases are unchanged
+        cases.append({'kind': 'grain_reset', 'run': i, 'weight': 3.0})
     return cases
 
 
@@ -154,6 +180,8 @@ def run_case(case, R):
         _run_formula(case, R, rng)
     elif case['kind'] == 'grain':
         _run_grain(case, R, rng)
+    elif case['kind'] == 'grain_reset':
+        _run_grain_reset(case, R, rng)
     else:
         _run_coupled(case, R, rng)
 
@@ -681,11 +709,13 @@ class _GrainWatch:
         self.gm, self.R, self.cfg = gm, R, cfg
         self.base = base_iter
         self.phase = 'free'
+        self.history = 'first_run'          # first_run / second_call / after_reset ...
         self.steps = {'free': 0, 'drag': 0, 'frozen_all': 0, 'frozen_populated': 0}
         self.cap = None
         self.evals = 0
         self.prev_mean = None
         self.decreases = 0
+        self.trace = []                     # (clock, recorded mean radius) after every step
 
     # --- iterator seam
     def __call__(self, f, t, X_old, updateX):
@@ -712,7 +742,7 @@ class _GrainWatch:
         self.evals += 1
         free = np.asarray(gm.grainGrowth(x), dtype=float)
         mech = {'path': 'solver', 'solver': self.cfg['solver'], 'phase': self.phase}
-        if self.phase == 'free':
+        if self.phase.startswith('free'):
             ok = bool(np.array_equal(used, free))
             _chk(R, 'gg_drag_rate', ok, dict(mech, what='zero_drag_changes_rate'), z=float(gm._z))
             return
@@ -741,7 +771,7 @@ class _GrainWatch:
     # --- observer seam (after every step of the grain model)
     def updateCoupledModel(self, gm):
         R = self.R
-        self.steps[self.phase] += 1
+        self.steps[self.phase] = self.steps.get(self.phase, 0) + 1
         m3 = float(gm.pbm.ThirdMoment())
         R.worst('gg_volume_dev', abs(m3 - 1.0))
         _chk(R, 'gg_volume', abs(m3 - 1.0) <= TOL_ARITH, {'solver': self.cfg['solver'], 'phase': self.phase},
@@ -758,17 +788,18 @@ class _GrainWatch:
         if grid != 'same':
             R.observe('grain_grid_' + grid)
         self._bounds = np.array(b, copy=True)
-        if self.phase == 'free' and self.prev_mean is not None:
+        if self.phase.startswith('free') and self.prev_mean is not None:
             ok = mean >= self.prev_mean * (1.0 - TOL_ARITH) and math.isfinite(mean)
             if self.prev_mean > 0:
                 R.worst('gg_mean_decrease_rel', (self.prev_mean - mean) / self.prev_mean)
-            _chk(R, 'gg_mean_nondecreasing', ok, {'solver': self.cfg['solver'], 'grid': grid},
+            _chk(R, 'gg_mean_nondecreasing', ok, {'solver': self.cfg['solver'], 'grid': grid, 'history': self.history},
                     dist=self.cfg['dist'], before=self.prev_mean, after=mean, step=len(gm.time) - 1, bins=len(gm.pbm.PSD))
             if grid == 'resampled' and self.prev_mean > 0:
                 R.worst('gg_mean_decrease_rel_at_resampling', (self.prev_mean - mean) / self.prev_mean)
         elif self.phase == 'drag' and self.prev_mean is not None and mean < self.prev_mean:
             self.decreases += 1
         self.prev_mean = mean
+        self.trace.append((float(gm.time[-1]), mean))
         if self.cap is not None and self.steps[self.phase] >= self.cap:
             raise StopRun()
 
@@ -788,12 +819,15 @@ def _drag_host(z_target, rng):
     return h, m, K
 
 
-def _run_grain(case, R, rng):
+def _make_grain(R, rng, dist=None):
+    """random standalone GrainGrowthModel with an admissible (contained) initial distribution -> (gm, cfg, a) or None"""
     from kawin.precipitation.coupling import GrainGrowthModel
-    from kawin.solver.Iterators import ExplicitEulerIterator, RK4Iterator
+    from kawin.solver import SolverType
     cfg = {}
     cfg['solver'] = 'rk4' if rng.random() < 0.6 else 'euler'
     cfg['dist'] = str(rng.choice(['lognormal_data', 'lognormal_fn', 'normal_fn', 'bimodal_fn']))
+    if dist is not None:
+        cfg['dist'] = dist
     mean = _loguni(rng, -7.0, -5.0)
     sig = float(rng.uniform(0.1, 0.45))
     bins = int(rng.integers(30, 100)) * 2
@@ -805,7 +839,8 @@ def _run_grain(case, R, rng):
     Mob = _loguni(rng, -15.0, -12.0)
     alpha = float(rng.uniform(0.5, 1.5))
     cfg.update(mean=mean, sigma=sig, bins=bins, minBins=minBins, maxBins=maxBins, cMax=cMax, cMin=cMin, gbe=gbe, M=Mob, alpha=alpha)
-    gm = GrainGrowthModel(cMin=cMin, cMax=cMax, bins=bins, minBins=minBins, maxBins=maxBins)
+    gm = GrainGrowthModel(cMin=cMin, cMax=cMax, bins=bins, minBins=minBins, maxBins=maxBins,
+                          solverType=SolverType.RK4 if cfg['solver'] == 'rk4' else SolverType.EXPLICITEULER)
     gm.setGrainBoundaryEnergy(gbe)
     gm.setGrainBoundaryMobility(Mob)
     gm.setAlpha(alpha)
@@ -825,10 +860,19 @@ def _run_grain(case, R, rng):
                                                + 0.2 * np.exp(-0.5 * ((r - 2.2 * mean) / (0.2 * mean)) ** 2)) * (r < cut))
     if gm.pbm.PSD[-1] > 1 or not np.isfinite(gm.avgR[0]) or gm.avgR[0] <= 0:
         R.observe('rejected_initial_distribution')
+        return None
+    return gm, cfg, alpha * Mob * gbe
+
+
+def _run_grain(case, R, rng):
+    from kawin.solver.Iterators import ExplicitEulerIterator, RK4Iterator
+    made = _make_grain(R, rng)
+    if made is None:
         R.set_nontrivial(False)
         return
+    gm, cfg, a = made
+    mean = cfg['mean']
     R.info['cfg'] = cfg
-    a = alpha * Mob * gbe
     watch = _GrainWatch(gm, R, cfg, RK4Iterator if cfg['solver'] == 'rk4' else ExplicitEulerIterator)
     watch._bounds = np.array(gm.pbm.PSDbounds, copy=True)
     watch.prev_mean = float(gm.avgR[0])
@@ -967,6 +1011,166 @@ def _run_grain(case, R, rng):
     R.set_nontrivial(watch.steps['free'] >= 30)
 
 
+# ------------------------------------------------------------------------------------------------
+# (2b) histories with reset():  load -> solve -> (solve) -> reset() -> solve, standalone and driven by a host
+
+def _grain_snapshot(gm):
+    return {'psd': np.array(gm.pbm.PSD, copy=True), 'bounds': np.array(gm.pbm.PSDbounds, copy=True),
+            'm3': float(gm.pbm.ThirdMoment()), 'mean': float(gm.Rm(gm.pbm.PSD)), 'avgR0': float(gm.avgR[0])}
+
+
+def _check_reset_state(R, gm, loaded, mech):
+    """State right after reset(). ASSERTED (statement: total grain volume is conserved over any number of solve calls): the
+    third moment is 1. OBSERVED only (the statement of C18 says nothing about what reset() restores; all of it holds bitwise on
+    the tree this check was written against): distribution, class bounds, mean of the distribution, clock and history length
+    equal the loaded, normalised state."""
+    def _obs(ok, what):
+        R.observe('reset_state_compared_' + what)
+        if not ok:
+            R.observe('reset_state_differs_' + what)
+        return bool(ok)
+    psd, b = np.asarray(gm.pbm.PSD, dtype=float), np.asarray(gm.pbm.PSDbounds, dtype=float)
+    m3 = float(gm.pbm.ThirdMoment())
+    ok = _chk(R, 'gg_volume', abs(m3 - 1.0) <= TOL_ARITH, dict(mech, phase='state_after_reset'), third_moment=m3, loaded=loaded['m3'])
+    same_shape = psd.shape == loaded['psd'].shape and b.shape == loaded['bounds'].shape
+    if not _obs(same_shape, 'grid_size'):
+        return bool(ok)
+    d = float(np.max(_rel(psd, loaded['psd'])))
+    R.worst('reset_state_psd_rel', d)
+    _obs(d <= TOL_ARITH, 'distribution')
+    db = float(np.max(_rel(b, loaded['bounds'])))
+    _obs(db <= TOL_ARITH and len(gm.pbm.PSDsize) == len(psd), 'class_bounds')
+    mean = float(gm.Rm(gm.pbm.PSD))
+    _obs(abs(mean / loaded['mean'] - 1.0) <= TOL_ARITH, 'mean_size_of_distribution')
+    _obs(len(gm.time) == 1 and float(gm.time[-1]) == 0.0 and len(gm.avgR) == 1 and gm._z == 0, 'clock_and_histories')
+    if float(gm.avgR[0]) != loaded['avgR0']:
+        R.observe('reset_leaves_avgR0_different_from_loaded')      # recorded, not asserted (see module docstring)
+    return bool(ok)
+
+
+def _observe_retrace(R, first, second, psd1, psd2, pair):
+    """OBSERVATION only (no verdict): does the second run retrace the first one from the same distribution?
+    The statement of C18 does not claim it; residuals and a counter are recorded as evidence."""
+    n1, n2 = len(first), len(second)
+    same = n1 == n2
+    if same and n1 > 0:
+        a, b = np.array(first, dtype=float), np.array(second, dtype=float)
+        dt, dr = float(np.max(_rel(a[:, 0], b[:, 0]))), float(np.max(_rel(a[:, 1], b[:, 1])))
+        R.worst('retrace_time_rel_' + pair, dt)
+        R.worst('retrace_mean_rel_' + pair, dr)
+        same = dt <= TOL_ARITH and dr <= TOL_ARITH
+        if psd1.shape == psd2.shape:
+            dp = float(np.max(_rel(psd1, psd2)))
+            R.worst('retrace_psd_rel_' + pair, dp)
+            same = same and dp <= TOL_ARITH
+        else:
+            same = False
+    elif n1 > 0 and n2 > 0:
+        R.worst('retrace_mean_rel_at_end_' + pair, abs(first[-1][1] / second[-1][1] - 1.0))
+    R.observe('retrace_compared_' + pair)
+    if not same:
+        R.observe('reset_run_does_not_retrace_first_run' if pair == 'first_run_vs_after_reset'
+                  else 'runs_after_reset_differ_from_each_other')
+    return same
+
+
+def _run_grain_reset(case, R, rng):
+    from kawin.solver.Iterators import ExplicitEulerIterator, RK4Iterator
+    # distributions loaded from data (LoadDistribution) and from a function in equal shares
+    dist = 'lognormal_data' if case['run'] % 2 == 0 else None
+    made = _make_grain(R, rng, dist=dist)
+    if made is None:
+        R.set_nontrivial(False)
+        return
+    gm, cfg, a = made
+    cfg['driver'] = 'standalone' if (case['run'] // 2) % 2 == 0 else 'stub_host'
+    cfg['loader'] = 'data' if cfg['dist'] == 'lognormal_data' else 'function'
+    ncalls = int(rng.integers(1, 3))
+    growth = float(rng.uniform(1.08, 1.5))
+    t_tot = (growth ** 2 - 1.0) * cfg['mean'] ** 2 / (0.5 * a)
+    cuts = [t_tot] if ncalls == 1 else [t_tot * float(rng.uniform(0.2, 0.7))]
+    if ncalls == 2:
+        cuts.append(t_tot - cuts[0])
+    nhost = int(rng.integers(4, 12))
+    host_fracs = rng.dirichlet(np.ones(nhost) * 2.0)
+    cfg.update(solve_times=cuts, host_steps_per_call=nhost)
+    R.info['cfg'] = cfg
+    mech = {'loader': cfg['loader'], 'driver': cfg['driver'], 'solver': cfg['solver']}
+    loaded = _grain_snapshot(gm)
+    _chk(R, 'gg_volume', abs(loaded['m3'] - 1.0) <= TOL_ARITH, dict(mech, phase='loaded'), third_moment=loaded['m3'])
+    watch = _GrainWatch(gm, R, cfg, RK4Iterator if cfg['solver'] == 'rk4' else ExplicitEulerIterator)
+    gm.addCouplingModel(watch)
+
+    def one_run(label):
+        """all solve calls of one run from the current (loaded / reset) state; returns trace or None on error"""
+        watch.trace = []
+        watch._bounds = np.array(gm.pbm.PSDbounds, copy=True)
+        watch.prev_mean = float(gm.Rm(gm.pbm.PSD))       # mean size of the distribution the run starts from
+        host = types.SimpleNamespace(phases=np.array(['p0']),
+                                     pData=types.SimpleNamespace(n=0, time=np.zeros(1), Ravg=np.zeros((1, 1)), volFrac=np.zeros((1, 1))))
+        for i, ts in enumerate(cuts):
+            watch.history = label if i == 0 else label + '_second_call'
+            watch.phase = 'free'
+            watch.cap = None
+            try:
+                if cfg['driver'] == 'standalone':
+                    t_end = float(gm.time[-1]) + ts
+                    gm.solve(ts, solverType=watch)
+                    R.worst('standalone_clock_vs_requested_end_rel', abs(float(gm.time[-1]) - t_end) / t_end)
+                else:
+                    for f in host_fracs:          # the public coupling entry point, host without precipitates (drag 0)
+                        p = host.pData
+                        p.time = np.append(p.time, p.time[-1] + ts * float(f))
+                        p.Ravg = np.vstack([p.Ravg, np.zeros((1, 1))])
+                        p.volFrac = np.vstack([p.volFrac, np.zeros((1, 1))])
+                        p.n += 1
+                        gm.updateCoupledModel(host)
+                        th, tg = float(p.time[p.n]), float(gm.time[-1])
+                        _chk(R, 'coupled_clock', abs(tg - th) <= TOL_ARITH * th, {'host': 'stub', 'regime': 'free', 'history': label,
+                                                                                  'grain_solver': cfg['solver']},
+                             host_clock=th, grain_clock=tg, step=int(p.n))
+                        R.observe('stub_host_steps_free')
+            except Exception as e:
+                R.exception('gg_volume', e, dict(mech, what='run_raised', history=label), cfg=cfg)
+                return None
+        return list(watch.trace)
+
+    di_loaded = int(gm.dissolutionIndex)
+    first = one_run('first_run')
+    if first is None:
+        R.set_nontrivial(False)
+        return
+    psd1 = np.array(gm.pbm.PSD, copy=True)
+    R.observe('reset_history_steps_first_run', len(first))
+    runs = []
+    for label in ('after_reset', 'after_second_reset'):
+        try:
+            gm.reset()
+        except Exception as e:
+            R.exception('gg_volume', e, dict(mech, what='reset_raised'), cfg=cfg)
+            R.set_nontrivial(False)
+            return
+        R.observe('resets')
+        di_reset = int(gm.dissolutionIndex)
+        _check_reset_state(R, gm, loaded, dict(mech, history=label))
+        tr = one_run(label)
+        if tr is None:
+            R.set_nontrivial(False)
+            return
+        runs.append((tr, np.array(gm.pbm.PSD, copy=True)))
+    second, psd2 = runs[0]
+    third, psd3 = runs[1]
+    # observations, not verdicts (the statement does not claim that a run after reset() retraces the first run):
+    # reset() leaves dissolutionIndex = 0 and avgR[0] = 0 whereas the Load* functions derive both from the distribution,
+    # so the step limiter sees the nearly empty smallest classes and the first step after reset() is shorter.
+    if di_reset != di_loaded:
+        R.observe('reset_does_not_restore_dissolution_index')
+    _observe_retrace(R, first, second, psd1, psd2, 'first_run_vs_after_reset')
+    _observe_retrace(R, second, third, psd2, psd3, 'after_reset_vs_after_second_reset')
+    R.info['steps'] = [len(first), len(second)]
+    R.set_nontrivial(len(first) >= 30)
+
+
 # ================================================================================================
 # (3) coupled to a precipitation model
 
@@ -1059,7 +1263,7 @@ def _run_coupled(case, R, rng):
     if rng.random() < 0.5:
         p['mech']['APB'] = 'AL3ZR'
         p['val']['APB']['AL3ZR'] = p['val']['APB']['all']
-    sm = gm = None
+    sm = gm = gm_loaded = None
     if cfg['attach'] in ('both', 'strength'):
         sm = _build_sm(p)
     if cfg['attach'] in ('both', 'grain'):
@@ -1067,6 +1271,7 @@ def _run_coupled(case, R, rng):
                               solverType=SolverType.RK4 if cfg['grain_solver'] == 'rk4' else SolverType.EXPLICITEULER)
         gm.setGrainBoundaryMobility(_loguni(rng, -15.0, -13.5))
         gm.LoadDistribution(rng.lognormal(np.log(1e-6), 0.2, 50000))
+        gm_loaded = _grain_snapshot(gm)
         if rng.random() < 0.6:      # strong pinning: the structure freezes once a small precipitate fraction exists
             gm.setZenerParameters(float(rng.choice([0.5, 0.3, 0.2])), float(rng.choice([4.0 / 3.0, 1.8, 0.5])))
             cfg['strong_pinning'] = True
@@ -1101,6 +1306,47 @@ def _run_coupled(case, R, rng):
             _chk(R, 'coupled_clock', d <= TOL_ARITH, {'host': 'PrecipitateModel', 'at': 'end_of_solve_call',
                                                       'grain_solver': cfg['grain_solver']},
                     host_clock=float(model.pData.time[n]), grain_clock=float(gm.time[-1]), solve_call=i)
+    # --- history with reset(): host.reset() + grain.reset() (examples/08), then the first solve call again
+    if gm is not None and 'host_error' not in R.info and obs.steps > 0:
+        try:
+            model.reset()
+            gm.reset()
+        except Exception as e:
+            from vlib.core import kawin_frame
+            fr = kawin_frame(e.__traceback__)
+            if fr is not None and 'coupling/' in fr[0]:
+                R.exception('gg_volume', e, {'driver': 'PrecipitateModel', 'what': 'reset_raised'}, cfg=cfg)
+            else:
+                R.observe('host_reset_failed')
+            gm_loaded = None
+        if gm_loaded is not None:
+            R.observe('resets')
+            _check_reset_state(R, gm, gm_loaded, {'loader': 'data', 'driver': 'PrecipitateModel', 'solver': cfg['grain_solver'],
+                                                  'history': 'after_reset'})
+            model.clearCouplingModels()
+            sm2 = _build_sm(p) if sm is not None else None        # StrengthModel has no reset(): a new one is attached
+            for m in [m for m in ((sm2, gm) if cfg['order'] == 'strength_first' else (gm, sm2)) if m is not None]:
+                model.addCouplingModel(m)
+            obs2 = _HostObserver(R, sm2, gm, cfg)
+            obs2.cap = 60
+            obs2.call = 'after_reset'
+            model.addCouplingModel(obs2)
+            try:
+                model.solve(cfg['solve_times'][0], solverType=st)
+                R.observe('solve_calls_completed_after_reset')
+            except StopRun:
+                R.observe('coupled_runs_capped')
+            except Exception as e:
+                from vlib.core import kawin_frame
+                fr = kawin_frame(e.__traceback__)
+                if fr is not None and ('coupling/' in fr[0]):
+                    R.exception('coupled_strength_len' if 'Strength' in fr[0] else 'coupled_clock', e,
+                                {'host': 'PrecipitateModel', 'what': 'coupled_update_raised', 'history': 'after_reset'}, cfg=cfg)
+                else:
+                    R.observe('host_rerun_failed')
+            R.observe('host_steps_after_reset', obs2.steps)
+            m3 = float(gm.pbm.ThirdMoment())
+            _chk(R, 'gg_volume', abs(m3 - 1.0) <= TOL_ARITH, {'solver': cfg['grain_solver'], 'phase': 'coupled_after_reset'}, third_moment=m3)
     R.observe('host_steps', obs.steps)
     R.observe('host_steps_with_drag', obs.z_positive)
     R.observe('host_steps_with_precipitates', obs.rss_positive)
@@ -1120,7 +1366,8 @@ MANIFEST = {
             'strength must be finite and non-negative, zero without precipitates, strength = Taylor factor x min of the model\'s own branches, total >= '
             'each part and monotone, mixed formulas = edge/screw formulas at 90/0 degrees (5e-3). Standalone GrainGrowthModel runs (real solver, '
             'monitoring iterator + observer) check volume (1e-12), mean size without drag, sign/magnitude of the drag-constrained rate at every '
-            'derivative evaluation and the freeze above the critical drag. Short Al-Zr PrecipitateModel runs with both models attached check history '
+            'derivative evaluation and the freeze above the critical drag; histories load -> solve -> reset() -> solve (data and function loaders, standalone / stub host / real host) '
+            'check the state after reset(), volume and mean size across the reset and that the run after reset() retraces the first run. Short Al-Zr PrecipitateModel runs with both models attached check history '
             'length = steps+1 and grain clock = host clock after every host step over 1-3 solve calls.',
     'note': 'trusted: numpy; the superposition rule documented in setStrengthSuperpositionExponent as reference for branch values; sampled, not exhaustive; '
             'phase-specific dictionaries beyond 3 phases not covered',
